@@ -221,6 +221,24 @@ void orc_delivery(Delivery &d) {
     if (on("C16")) orc_c16_delivery(d);
     if (on("C17")) orc_c17_delivery(d);
     if (on("C19")) orc_c19_delivery(d);
+    // a one-shot source (incl. tasks and thresholds) is gone once it fired: mirrors and the C09 model follow
+    if (!d.in_unstash)
+        for (auto &e : d.evts) {
+            if (e.type == M_SRC_TYPE_PS || e.type < 0 || e.type >= M_SRC_TYPE_END) continue;
+            Slot &s = W->slots[d.slot];
+            for (size_t i = 0; i < s.srcs.size(); i++) {
+                SrcM &x = s.srcs[i];
+                if (x.type != e.type || x.ud != e.ud || !x.oneshot) continue;
+                SrcM copy = x;
+                copy.removed_gseq = R->gseq;
+                s.c09_model.erase(std::make_tuple(x.type, x.k1, x.type == M_SRC_TYPE_TASK ? 0L : x.k2));
+                for (auto &ar : W->autoclose_regs) if (ar.slot == s.idx && ar.ud == x.ud) ar.removed = true;
+                s.srcs.erase(s.srcs.begin() + i);
+                s.recent_srcs.push_back(copy);
+                s.oneshot_fired.push_back(copy.ud);
+                break;
+            }
+        }
     // which descriptor sources delivered (arrival-vs-delivery oracle of C03)
     for (auto &e : d.evts)
         if (e.type == M_SRC_TYPE_FD) {
